@@ -17,7 +17,7 @@ fuzz_target!(|data: &[u8]| {
     let c = PortCase {
         prior,
         entry: u.int_in_range(0..=2u8).unwrap_or(0),
-        timeout_ms: common::pick(&mut u, &[1u64, 250, 5_000, 3_600_000]),
+        timeout_ms: if u.arbitrary().unwrap_or(false) { u.arbitrary().unwrap_or(1) } else { common::pick(&mut u, &[0u64, 1, 250, 5_000, 3_600_000, 2_147_483_647, 2_147_483_648, u64::MAX]) },
         fail: u.int_in_range(0..=4u8).unwrap_or(0),
         kind: u.int_in_range(0..=5usize).unwrap_or(0),
         transient: u.arbitrary().unwrap_or(false),
